@@ -21,7 +21,7 @@ for (srcroot, prop, i), r in sorted(res.items()):
     if not v or v["suite_with_change"] != "ok" or v["demo_with_change"] != "FAIL" or v["demo_without_change"] != "ok":
         print("NOT CONFIRMED", prop, i, v)
         continue
-    sid = ("R2-" if "out2" in srcroot else "R3-" if "out3" in srcroot else "") + f"{prop}-m{i}"
+    sid = ("R2-" if "out2" in srcroot else "R3-" if "out3" in srcroot else "R4-" if "out4" in srcroot else "") + f"{prop}-m{i}"
     d = os.path.join('/verif/seeded', sid)
     os.makedirs(d, exist_ok=True)
     shutil.copy(os.path.join(r["src"], f'mutant{i}.patch'), os.path.join(d, 'patch.diff'))
